@@ -663,8 +663,12 @@ class _MutableSetMixin:
         return self
 
     def __iand__(self, it):
-        for value in (self - it):
-            self.discard(value)
+        # Like the C implementation: keep what is in both.  Don't go
+        # through ``self - it``, which has to sort an arbitrary iterable
+        # and so fails for one holding None next to other keys.
+        keep = [value for value in it if value in self]
+        self.clear()
+        self.update(keep)
         return self
 
     def __isub__(self, it):
